@@ -290,6 +290,7 @@ ScriptOf(m) == [w |-> m.what,
 (*                UTF-8) and Point / Rect co-ordinates as Python floats (struct '<2f' / '<4f': a float32    *)
 (*                signalling NaN does not survive the conversion to double and back), so: names and strings  *)
 (*                well-formed UTF-8, no signalling NaN in a Point or Rect.                                   *)
+(*  pynative    : the same content built with message.py's own Put* calls from Python values.               *)
 
 RECURSIVE Utf8From(_, _)
 Utf8From(s, p) ==
@@ -324,5 +325,13 @@ PyOK(m) == \A i \in 1..Len(m.fields) :
                          [] k = "rect"    -> \A q \in {1, 5, 9, 13} : ~SNaN32(f.items[j], q)
                          [] OTHER         -> TRUE
 
-Common(impl, m) == IF impl = "python" THEN PyOK(m) ELSE TRUE
+\* building the same content NATIVELY in Python hands message.py lists of Python floats, which it packs into array('f'):
+\* additionally no float32 signalling NaN in a float field
+RECURSIVE NoSNaNFloats(_)
+NoSNaNFloats(m) == \A i \in 1..Len(m.fields) :
+                      LET f == m.fields[i] k == Kind(f.type) IN
+                      \A j \in 1..Len(f.items) : CASE k = "float" -> ~SNaN32(f.items[j], 1) [] k = "message" -> NoSNaNFloats(f.items[j]) [] OTHER -> TRUE
+PyNativeOK(m) == PyOK(m) /\ NoSNaNFloats(Norm(m))
+
+Common(impl, m) == CASE impl = "python" -> PyOK(m) [] impl = "pynative" -> PyNativeOK(m) [] OTHER -> TRUE
 =============================================================================
